@@ -19,13 +19,13 @@ from boario.simulation import Simulation  # noqa: E402
 
 REG_NAMES = ["rA", "rB", "rC", "rD", "rE", "rF"]
 SEC_NAMES = ["agri", "build", "manu", "serv", "trade", "util", "water", "xport"]
-CAT_NAMES = ["gov", "house"]
+CAT_NAMES = ["gov", "house", "npish"]
 # the same positions under less tidy names: spaces, digits ("10 ..." sorts before "2 ..."), mixed case (upper case sorts
 # before lower case), dashes, dots.  Listed in lexicographic (code point) order, like the plain ones, so that the position
 # of a label in these lists is its position in the model.
 ODD_REG_NAMES = ["A 1", "B-2", "c_3", "d.4", "e5", "f 6"]
 ODD_SEC_NAMES = ["10 Agri", "2 build", "Manu fact", "serv.", "trade-x", "util", "water 1", "xport"]
-ODD_CAT_NAMES = ["Gov exp", "house holds"]
+ODD_CAT_NAMES = ["Gov exp", "house holds", "n.p.i.s.h"]
 # names that differ only by capitalisation (two sectors such as "Other" (utilities) / "other" (services) exist in aggregated tables)
 CASE_SEC_NAMES = ["Build", "Serv", "build", "serv", "trade", "util", "water", "xport"]
 assert CASE_SEC_NAMES == sorted(CASE_SEC_NAMES)
@@ -39,6 +39,8 @@ def gen_table(rng: random.Random, m=None, n=None, k=None, kind=None, scale=None,
     m = m or rng.choice([1, 2, 2, 3])
     n = n or rng.choice([2, 3, 3, 4])
     k = k or rng.choice([1, 1, 2])
+    if k == 2 and random.Random(int(m * 100 + n * 10 + k) ^ 0x3CA7).random() < 0.35:
+        k = 3          # three final-demand categories (drawn apart: the other draws stay as they were)
     kind = kind or rng.choice(["dense", "dense", "sparse", "zero_output", "zero_fd", "below_thr", "hetero"])
     scale = scale if scale is not None else 10.0 ** rng.choice([-3, 0, 0, 2, 3, 6, 9, 12])
     N, F = m * n, m * k
@@ -226,6 +228,8 @@ def gen_model_cfg(rng: random.Random, tb: dict, shock_prone=False) -> dict:
     # documentation) instead of the constructor argument, which then keeps its default
     if random.Random(repr(sorted((k_, repr(v_)) for k_, v_ in cfg.items()))).random() < 0.2:
         cfg["mf_via_table"] = True
+    if random.Random(repr(sorted((k_, repr(v_)) for k_, v_ in cfg.items())) + "np").random() < 0.12:
+        cfg["np_scalars"] = True
     return cfg
 
 
@@ -285,6 +289,13 @@ def build_model(tb: dict, cfg: dict, io=None, capital_perm=None, dict_order=None
         if cap.get("as_row"):
             s = s.T
         kw["productive_capital_vector"] = s
+    if cfg.get("np_scalars"):
+        # parameters arriving as numpy scalars (read from an array or a DataFrame of scenarios)
+        for kk in ("alpha_base", "alpha_max"):
+            kw[kk] = np.float64(kw[kk])
+        for kk in ("alpha_tau", "rebuild_tau", "main_inv_dur", "temporal_units_by_step", "iotable_year_to_temporal_unit_factor"):
+            if float(kw[kk]).is_integer():
+                kw[kk] = np.int64(kw[kk])
     if cfg.get("mf_via_table"):
         io.monetary_factor = kw.pop("monetary_factor")
     if cfg["class"] == "psi":
@@ -561,6 +572,8 @@ def gen_scenario(seed: int, stream: str = "shocked", **over) -> dict:
         if rng.random() < 0.3:
             cfg["dt"] = rng.choice([2, 3, 5])
             sc["T"] = sc["T"] * cfg["dt"]
+            if random.Random(seed ^ 0x7AB).random() < 0.3:
+                sc["T"] += random.Random(seed ^ 0x7AC).randint(1, cfg["dt"] - 1)      # (horizon not a multiple of the step length)
             cfg["alpha_tau"] = max(cfg["alpha_tau"], cfg["dt"])
             if isinstance(cfg.get("restoration_tau"), dict):
                 cfg["restoration_tau"] = {k_: max(v_, cfg["dt"]) for k_, v_ in cfg["restoration_tau"].items()}
@@ -584,6 +597,8 @@ def gen_scenario(seed: int, stream: str = "shocked", **over) -> dict:
             cfg["restoration_tau"] = max(cfg["restoration_tau"], cfg["dt"])
         T = T * cfg["dt"] if T * cfg["dt"] <= 90 else T * 2
         T -= T % cfg["dt"]
+        if random.Random(seed ^ 0x7AB).random() < 0.3:
+            T += random.Random(seed ^ 0x7AC).randint(1, cfg["dt"] - 1)      # a horizon that is not a multiple of the step length
         sc["T"] = T
     # capital of the built model is needed to size impacts
     model = build_model(tb, cfg)
